@@ -1,4 +1,5 @@
 import SJ.Proofs.Complete.Closure
+import SJ.Proofs.Complete.Ap
 /-!
 # C01 (completeness half) — every RFC 8259 text meeting the side conditions is accepted
 
@@ -51,6 +52,14 @@ example : ∃ v, parseTop ⟨{}, .slice, .value⟩
                 (by decide) Derives.null))))⟩
     (Or.inr (by decide)) rfl (fun _ => rfl) rfl
 
+/-- the depth bound is sharp: 127 nested arrays are accepted, the 128th `[` is rejected -/
+example : parseTop ⟨{}, .slice, .value⟩ (List.replicate 128 0x5b ++ List.replicate 128 0x5d)
+    = .err .RecursionLimitExceeded 128 := rfl
+
+example : (match parseTop ⟨{}, .slice, .value⟩ (List.replicate 127 0x5b ++ List.replicate 127 0x5d) with
+    | .ok _ => true
+    | .err _ _ => false) = true := rfl
+
 /-- the same, with the side conditions bundled as in `Spec.Canon.sideConditions` -/
 theorem c01_complete_sideConditions (env : Env) (henv : env.tgt = .value) (bs : Bytes) (t : CST)
     (h : JsonText bs t)
@@ -66,6 +75,26 @@ theorem c01_complete_sideConditions (env : Env) (henv : env.tgt = .value) (bs : 
 
 example : Spec.Canon.sideConditions (specCfg {}) (Src.reader != .str)
     (.arr [.str [.uni 0x44 0x38 0x33 0x44, .uni 0x44 0x45 0x30 0x30]]) = true := by decide
+
+/-- under `arbitrary_precision` no numeric side condition is needed: every literal is kept as text -/
+theorem c01_complete_value_ap (env : Env) (henv : env.tgt = .value) (hap : env.cfg.ap = true)
+    (bs : Bytes) (t : CST) (h : JsonText bs t)
+    (hdepth : env.cfg.limitOff = true ∨ depth t ≤ 127)
+    (hsur : surrogatesPaired t = true)
+    (hutf : env.src ≠ .str → Spec.Canon.stringsUtf8 t = true) :
+    ∃ v, parseTop env bs = .ok v ∧ canonM env.cfg t = some v :=
+  c01_complete_value env henv bs t h hdepth hsur hutf (numbersInRange_ap (specCfg env.cfg) hap t)
+
+/-- `1e999` is kept verbatim under `arbitrary_precision` (and rejected as out of range otherwise) -/
+example : parseTop ⟨{ ap := true }, .str, .value⟩ [0x31, 0x65, 0x39, 0x39, 0x39]
+    = .ok (.num (.lit [0x31, 0x65, 0x39, 0x39, 0x39])) := by
+  obtain ⟨v, hp, hc⟩ := c01_complete_value_ap ⟨{ ap := true }, .str, .value⟩ rfl rfl
+    [0x31, 0x65, 0x39, 0x39, 0x39] (.num ⟨false, [0x31], [], [0x65, 0x39, 0x39, 0x39]⟩)
+    ⟨[], _, [], rfl, by decide, by decide, Derives.num ⟨false, [0x31], [], [0x65, 0x39, 0x39, 0x39]⟩ rfl⟩
+    (Or.inr (by decide)) rfl (fun _ => rfl)
+  rw [hp]; simp [canonM, Spec.Canon.numOf, specCfg] at hc; rw [← hc]; rfl
+
+example : parseTop ⟨{}, .str, .value⟩ [0x31, 0x65, 0x39, 0x39, 0x39] = .err .NumberOutOfRange 5 := rfl
 
 /-- **C01 (complete, skipped content).** `ignore_value` accepts every JSON text: it checks neither
     depth, surrogate pairing, UTF-8 validity nor numeric range. -/
